@@ -57,7 +57,7 @@ PROPS["C10"] = {
     "floor": {"quick": 500, "thorough": 20000},
     "require_counters": {"quick": {"B_crash_points_injected": 20, "A_roundtrips_equal": 100, "C_inputs_decoded": 1000},
                          "thorough": {"B_crash_points_injected": 500, "A_roundtrips_equal": 5000}},
-    "rule": "A: random snapshots over all retainable value shapes (NaN payloads, -0.0, extremes, unicode, nested arrays/structs, 0..10^4 entries), "
+    "rule": "snapshot classes: empty, one, small, mixed (random values of all 28 kinds nested up to depth 3), large (2000-10000 scalars), wide (tables of 60-400 structs, 60-200 struct variables, a struct with 100-400 members, arrays of arrays, legal nesting up to depth 32). A: random snapshots over all retainable value shapes (NaN payloads, -0.0, extremes, unicode, nested arrays/structs, 0..10^4 entries), "
             "store->load compared bit-exactly; non-trivial = contains a compound value. B: (s_old,s_new) pairs incl. no previous file, smaller/larger, "
             "multi-write sizes; a dry run under the shim records the save's system-call sequence, then EVERY call n x {die before, die after, "
             "partial write of 1, len/2, len-1 bytes} is injected in a child process; non-trivial = the child really died at the injected point "
@@ -81,7 +81,7 @@ PROPS["C11"] = {
     "quick": {"shards": 8, "budget_s": 20, "max_restarts": 30},
     "thorough": {"shards": 16, "budget_s": 300, "max_restarts": 60},
     "floor": {"quick": 3000, "thorough": 50000},
-    "require_counters": {"quick": {"decoded_ok": 3000, "validated_ok": 500, "emitted_containers_ok": 4},
+    "require_counters": {"quick": {"decoded_ok": 3000, "validated_ok": 500, "emitted_containers_ok": 4, "emitted_corpus_programs_ok": 250},
                          "thorough": {"decoded_ok": 50000, "validated_ok": 5000}},
     "rule": "seed containers = compiler output for 4 embedded programs (tasks, FBs, structs, enums, OOP, I/O). Mutants: every 4-byte-aligned "
             "offset x 8 hostile u32 values with the CRC recomputed (systematic for containers <= 3000 B; all seeds in thorough), truncation at "
@@ -93,7 +93,7 @@ PROPS["C11"] = {
                   "a counting allocator (peak <= 64*|b| + 1 MiB, single request <= 1 GiB); containers that validate are then applied to a runtime "
                   "built from the seed program. Emitted containers must validate, re-encode bit-exactly and apply. Panics are caught, aborts and "
                   "stack overflows are attributed through the case journal.",
-    "level_note": "apply_bytecode_bytes is not exercised for containers declaring a process image above 64 MiB per area (allocating what the "
+    "level_note": "The emitted-container clause is also checked over a corpus: 15 programs whose first statement is a WHILE / REPEAT / FOR / IF / CASE (in a program, an FB and a function), every .st file of /repo the harness accepts and 400 (thorough 4000) generated programs must be emitted, validate, re-encode bit-exactly and apply. apply_bytecode_bytes is not exercised for containers declaring a process image above 64 MiB per area (allocating what the "
                   "container legitimately asks for is outside the O(|b|) clause and would exhaust the machine); counted in observed.apply_skipped_image_over_64MiB.",
     "assumptions": ["memory budget 64 bytes per input byte + 1 MiB for decode+validate+metadata",
                     "apply only observed on the four seed runtimes"],
